@@ -113,9 +113,9 @@ spec("C02", "Config-class round trip",
      not_decided="preservation of values/types/prose; the documented zero-value normalisation; the parser's merge of docstring- and attribute-derived entries")
 
 spec("C03", "Function / method round trip",
-     [H.rule_default_kind, W.rule_rejoin_uniform, L.rule_quote_pair, named(O.rule_order, "rule_order_function", only=("emit.function",)), A.rule_align_emit, A.rule_align_parse, TB.rule_table_kind, N.rule_null1, N.rule_null2,
+     [H.rule_ast_leak, H.rule_default_kind, W.rule_rejoin_uniform, L.rule_quote_pair, named(O.rule_order, "rule_order_function", only=("emit.function",)), A.rule_align_emit, A.rule_align_parse, TB.rule_table_kind, N.rule_null1, N.rule_null2,
       scoped(FA.rule_falsy, "falsy_function", "emit.function", "parse.function"), named(FW.rule_fwd, "rule_fwd", accepted=FWD_ACCEPTED), O.rule_kwarg_last, O.rule_order_merge, det3("function", "emit.function", "parse.function"), pit("function", "emit.function", "parse.function")],
-     "Necessary conditions: (DEFAULT-KIND) an operation only a str has (a str method, len(), indexing) is applied to a read of the IR key 'default' only under evidence that this default is a str (isinstance, a package predicate that tests it, equality with a str constant): defaults are also ints, floats, booleans and None; (REJOIN-UNIFORM) when word-wrapped prose is read back, the lines of a description are re-joined the same way at every line boundary - no decision on what a line contains, no join without a blank - so the prose comes back word for word; (QUOTE-PAIR) what the writer does to a string default when it quotes it the reader's unquote undoes, quoting its own result changes nothing, and unquote leaves a text that is not a quoted pair alone - followed on representatives of the kinds of string a default can be (a word, inner double quote, apostrophe, inner blank, padded, blank, line break, digits); (ORDER) one argument per non-**kwargs parameter in order, named by the key, with the name-only **kwargs partition and its complement both "
+     "Necessary conditions: (AST-LEAK) on every path through the reader's default post-processing on which a signature default can still be a syntax node (no condition has said it is a str / constant / None-like, no statement has converted it) the function does not return: the IR holds values and code-quoted text, never raw ast objects; (DEFAULT-KIND) an operation only a str has (a str method, len(), indexing) is applied to a read of the IR key 'default' only under evidence that this default is a str (isinstance, a package predicate that tests it, equality with a str constant): defaults are also ints, floats, booleans and None; (REJOIN-UNIFORM) when word-wrapped prose is read back, the lines of a description are re-joined the same way at every line boundary - no decision on what a line contains, no join without a blank - so the prose comes back word for word; (QUOTE-PAIR) what the writer does to a string default when it quotes it the reader's unquote undoes, quoting its own result changes nothing, and unquote leaves a text that is not a quoted pair alone - followed on representatives of the kinds of string a default can be (a word, inner double quote, apostrophe, inner blank, padded, blank, line break, digits); (ORDER) one argument per non-**kwargs parameter in order, named by the key, with the name-only **kwargs partition and its complement both "
      "consumed; (ALIGN-emit) defaults/kw_defaults are built one per argument from the same sequence (symbolic length identities over all paths); (ALIGN-parse) "
      "signature defaults are padded to exactly the argument count and keep their positions; (TABLE-kind) self/cls/static and the **kwargs suffix agree between "
      "emitter and recognisers; (NULL-1/2) no definite None dereference on the return-only / prose-less return paths. (FWD) an option the caller was given (word_wrap, emit_default_doc, docstring_format, ...) is forwarded to every callee that has the same option with a default - directly, through a partial or a wrapper; the confirmed exceptions are listed with reasons (props.FWD_ACCEPTED) or lie on the live-object path. (DET-3, scoped) no function on this property's code path writes state that outlives the call (module globals/objects, function or class attributes, mutated mutable defaults, memoised mutable results): the conversion is not history-dependent. (LATE-BIND / STALE-CAPTURE / SHARED-DEFAULT / STR-MEMBER, scoped) on this property's code path no closure created per iteration reads its loop variable late, no partial / lambda default captures a name that is rebound before the call, no mutable default is mutated, returned or stored, and no membership test is made against an identifier-like string (a tuple that lost its comma). (KWARG-LAST, ORDER-merge) as under C07.",
@@ -145,9 +145,9 @@ spec("C06", "Emitted code is valid Python",
      not_decided="behaviour of the executed artefacts, identifier validity of type strings, values of defaults")
 
 spec("C07", "Parsing faithful to Python's view",
-     [lambda prog, rep, tier: D.rule_det1(prog, rep, tier, scope=prog.reachable([prog.fn("parse.function"), prog.fn("parse.class_")]), accepted=DET1_ACCEPTED),
+     [H.rule_ast_leak, lambda prog, rep, tier: D.rule_det1(prog, rep, tier, scope=prog.reachable([prog.fn("parse.function"), prog.fn("parse.class_")]), accepted=DET1_ACCEPTED),
       A.rule_align_parse, O.rule_sigcover, O.rule_first_match, O.rule_kwarg_last, O.rule_order_merge, H.rule_invented_default, W.rule_rejoin_uniform, det3("parse", "parse.function", "parse.class_"), pit("parse", "parse.function", "parse.class_")],
-     "Necessary conditions: (REJOIN-UNIFORM) the reader's blank-join of lines is applied to descriptions only, never to a default value or a type (the same post-processing sees the defaults "
+     "Necessary conditions: (AST-LEAK) on every path through the reader's default post-processing on which a signature default can still be a syntax node (no condition has said it is a str / constant / None-like, no statement has converted it) the function does not return: the IR holds values and code-quoted text, never raw ast objects; (REJOIN-UNIFORM) the reader's blank-join of lines is applied to descriptions only, never to a default value or a type (the same post-processing sees the defaults "
      "taken from the signature, where a line break is content), and treats every line boundary alike; (INVENTED-DEFAULT) the docstring reader never invents a default (a flag that makes a helper write a zero value / None placeholder as 'default' is "
      "a constant false on every call on the reader's path): the docstring takes precedence in the merge, so an invented default makes a parameter Python sees as required optional; "
      "(DET-1) on the parse path no iteration order of an unordered collection reaches the parameter mapping (order independent of run-to-run "
